@@ -13,7 +13,7 @@ from props.c08 import parse_mismatches
 SHARDS = 8
 EXACT = "(c05_case_exact Snapshot.registry Snapshot.current)"
 SAME = "(c05_case_same Snapshot.registry Snapshot.current)"
-PROVED = "(fun c => frag (cc_facts c) (cc_val c) && ids_tree (cc_denv c) (cc_base c) (cc_val c))"
+PROVED = "(fun c => c05_guard (cc_facts c) (cc_denv c) (cc_base c) (cc_val c))"
 COQ_SHARD = 40
 
 
